@@ -55,13 +55,17 @@ CfKinds == [GHz1 |-> "ok", zero |-> "ok", neg |-> "ok", kHz5 |-> "ok",
             sec |-> "err", float |-> "err", array |-> "err", array1 |-> "err", none |-> "err", nan |-> "either"]
 StartKinds == [none |-> "ok", time |-> "ok", time_mjd |-> "ok", time_tai |-> "ok", time_subns |-> "ok",
                time_array1 |-> "err", isot_str |-> "either",
+               time_array_isot9 |-> "err", time_array1_isot9 |-> "err",   \* non-scalar, already in the stored format
+               time_tcb |-> "ok",
                float |-> "err", time_array |-> "err", garbage |-> "err", list |-> "err"]
 MetaKinds == [none |-> "ok", dict |-> "ok", empty |-> "ok", mappingproxy |-> "ok", ordered |-> "ok",
               pairs |-> "either",
               int |-> "err", string |-> "err", list_ints |-> "err"]
 AlignKinds == [bottom |-> "ok", center |-> "ok", top |-> "ok",
-               middle |-> "err", none |-> "err", one |-> "err", upper |-> "err"]
-PolKinds == [linear |-> "ok", circular |-> "ok", elliptical |-> "err", none |-> "err", xy |-> "err"]
+               middle |-> "err", none |-> "err", one |-> "err", upper |-> "err",
+               arr0d |-> "err", list1 |-> "err", anyeq |-> "err"]   \* array / list holding an allowed word; an object equal to everything
+PolKinds == [linear |-> "ok", circular |-> "ok", elliptical |-> "err", none |-> "err", xy |-> "err",
+             arr0d |-> "err", list1 |-> "err", anyeq |-> "err"]
 
 VARIABLES args, nmut, obj, phase
 vars == <<args, nmut, obj, phase>>
